@@ -95,6 +95,8 @@ type vhConn struct {
 	closed  bool
 	addr    string // remote address ("" = loopback)
 	denied  bool   // the protected-mode refusal was written
+	outs    []string // everything written to the socket, one entry per write
+	afterFirst func() // runs when the second packet is requested (something another client did in between)
 }
 
 var vhNativeAckFailed bool
@@ -112,6 +114,9 @@ func (c *vhConn) Read(p []byte) (int, error) {
 	if c.next >= len(c.packets) {
 		return 0, errors.New("closed")
 	}
+	if c.next == 1 && c.afterFirst != nil {
+		c.afterFirst()
+	}
 	n := copy(p, c.packets[c.next])
 	c.next++
 	return n, nil
@@ -120,6 +125,7 @@ func (c *vhConn) Read(p []byte) (int, error) {
 // Write is the moment the acknowledgement leaves the server.
 func (c *vhConn) Write(p []byte) (int, error) {
 	vgate("Write")
+	c.outs = append(c.outs, string(p))
 	if strings.HasPrefix(string(p), "-DENIED") {
 		c.denied = true
 		return len(p), nil
